@@ -597,6 +597,32 @@ def check_reply(ctx, rng):
                 res['viol'].append(('reply-not-transmitted-before-deadline', 'reply within the lifetime was not transmitted', wb))
             elif bool(out['ret']) != bool(out['sent']):
                 res['viol'].append((f'reply-return-untruthful:returned={out["ret"]!r},sent={bool(out["sent"])}', 'reply return value does not say whether it was sent', wb))
+        # the wall clock is stepped between the arrival of the Interest and the reply: the lifetime is a duration
+        for L, step, t_reply in ((50, -10.0, 200), (50, -3600.0, 51), (1000, 3600.0, 10), (100, 86400.0, 99), (100, 0.3, 50), (100, -0.3, 150)):
+            seq += 1
+            name = [C(b'r'), rc.comp(8, str(seq).encode())]
+            t_arr = S.now_ms()
+            await face.deliver(bytes(make_interest(name, InterestParam(lifetime=L, nonce=seq))))
+            for _ in range(3):
+                await asyncio.sleep(0)
+            if not log or [bytes(c) for c in log[-1][0]] != name:
+                res['viol'].append(('reply-handler-not-called', 'handler not invoked for a plain Interest', {'lifetime': L}))
+                continue
+            reply = log[-1][1]
+            S.step_wall(step)
+            await S.sleep_until_ms(t_arr + t_reply)
+            n0 = len(face.sent)
+            ret = reply(bytes(make_data(name, MetaInfo(), b'stepped', DigestSha256Signer())))
+            sent = len(face.sent) - n0
+            ctx.event('reply-after-a-step-of-the-wall-clock')
+            ctx.case(('reply-wall-step', L, step, t_reply), nontrivial=True)
+            ws = {'lifetime': L, 'wall_clock_stepped_by_s': step, 'replied_after_ms': t_reply}
+            if (t_reply < L) != bool(sent):
+                res['viol'].append(('reply-transmitted-after-deadline:wall-clock-stepped' if sent else 'reply-not-transmitted-before-deadline:wall-clock-stepped',
+                                    f'with the wall clock stepped by {step} s after the Interest arrived, a reply {t_reply} ms after arrival (lifetime {L} ms) was {"" if sent else "not "}transmitted', ws))
+            if bool(ret) != bool(sent):
+                res['viol'].append((f'reply-return-untruthful:returned={ret!r},sent={bool(sent)}', 'reply return value does not say whether it was sent', ws))
+        S.wall_offset = 0.0
         # replies after the face went down (inside the lifetime): nothing can be transmitted, so "sent" must not be reported
         pend = []
         for j in range(4):
@@ -895,7 +921,7 @@ def run(ctx):
         check_burst(ctx, rng)
     check_reply(ctx, rng)
     check_reentrant(ctx, rng)
-    for k in ('announcement-given-up-for-a-prefix-that-has-a-handler', 'attach-of-a-falsy-callable-object', 'interest-whose-handler-raises', 'inside-handler:attach', 'inside-handler:detach', 'inside-handler:detach-self', 'inside-handler:attach-occupied'):
+    for k in ('reply-after-a-step-of-the-wall-clock', 'announcement-given-up-for-a-prefix-that-has-a-handler', 'attach-of-a-falsy-callable-object', 'interest-whose-handler-raises', 'inside-handler:attach', 'inside-handler:detach', 'inside-handler:detach-self', 'inside-handler:attach-occupied'):
         ctx.need_event(k)
     for k in ('attach', 'detach', 'duplicate-attach', 'interest-hit', 'interest-miss', 'reply-sent', 'reply-late', 'attach-with-delivery-options',
               'reconnect-with-handlers-attached', 'register-without-handler-on-free-prefix', 'duplicate-route-declaration',
